@@ -52,6 +52,7 @@ Proof. reflexivity. Qed.
 (* ------------------------------------------------------------------------------------------------ UC20 invariant *)
 
 Section UC20.
+Variable cf : conf.
 Variables fx g : bool.
 Hypothesis guard : fx || g = true.
 
@@ -75,7 +76,8 @@ Definition Qb (k b : rev) (s : st20) : Prop :=
 Definition Qf (gk gb ak ab : list rev) (k b : rev) (s : st20) : Prop :=
   Ist gk gb ak ab s /\ Trust s /\ Qb k b s.
 
-Definition head_enable (ws : list write20) : Prop := exists r ws', ws = WEnable r :: ws'.
+Definition head_enable (ws : list write20) : Prop :=
+  exists ws', (exists r, ws = WEnable r :: ws') \/ (exists a b c, ws = WEnv a b c :: ws').
 
 (* at a point where writes ws remain: crash-safe, and trusted unless this is the window (only if the guard g is on) *)
 Definition P (gk gb ak ab : list rev) (nt : bool) (s : st20) (ws : list write20) : Prop :=
@@ -209,7 +211,7 @@ Proof.
   intros * (HI & HT & HQ) Hr. op_start HI HT HQ.
   unfold set_next_kernel, modeenv_write, set_ck; simpl.
   break; finish.
-  all: destruct fx; simpl in *; try solve [fin]; right; splits; eauto.
+  all: destruct fx; simpl in *; try solve [fin]; right; splits; eauto 8.
 Qed.
 
 Lemma op_setb_try : forall gk gb ak ab k b s r,
@@ -231,6 +233,43 @@ Proof.
   break; finish.
 Qed.
 
+Lemma op_mark_env : forall gk gb ak ab k b s,
+  Qf gk gb ak ab k b s ->
+  pend_ok (P (k :: gk) (b :: gb) ak ab false) (fun s' => Qf (k :: gk) (b :: gb) [] [] k b s') s (mark20_env s).
+Proof.
+  intros * (HI & HT & HQ). op_start HI HT HQ.
+  unfold mark20_env, mark_kernel_sn, mark_base_sn, modeenv_write, orev_is_none; simpl.
+  assert (Hb : In (match mbs, mt with STrying, Some t => t | _, _ => mb end) (b :: gb)).
+  { destruct mbs; try (right; exact I2). destruct mt as [t|]; [| right; exact I2].
+    destruct (Q4 eq_refl t eq_refl). left; reflexivity. }
+  remember (match mbs, mt with STrying, Some t => t | _, _ => mb end) as bsn eqn:Eb. clear Eb Q4.
+  assert (Hk : (match ks0, tkl0 with STrying, Some t => t | _, _ => kl0 end) = kl0 \/
+               (match ks0, tkl0 with STrying, Some t => t | _, _ => kl0 end) = k /\ In k mck).
+  { destruct ks0; auto. destruct tkl0 as [t|]; auto. destruct (Q3 eq_refl t eq_refl); subst; auto. }
+  remember (match ks0, tkl0 with STrying, Some t => t | _, _ => kl0 end) as ksn eqn:Ek. clear Ek Q3.
+  destruct Hk as [Hk | [Hk Hck]]; subst ksn; break; finish.
+Qed.
+
+Lemma op_setk_try_env : forall gk gb ak ab k b s r,
+  Qf gk gb ak ab k b s ->
+  pend_ok (P gk gb (if N.eqb r (kl s) then ak else r :: ak) ab false)
+          (fun s' => Qf gk gb (if N.eqb r (kl s') then [] else [r]) ab k b s') s (set_next_kernel_env fx s r false).
+Proof.
+  intros * (HI & HT & HQ). op_start HI HT HQ.
+  unfold set_next_kernel_env, modeenv_write, set_ck; simpl.
+  break; finish.
+Qed.
+
+Lemma op_setk_notry_env : forall gk gb ak ab k b s r,
+  Qf gk gb ak ab k b s -> In r gk ->
+  pend_ok (P gk gb ak ab true) (fun s' => Qf gk gb [] ab k b s') s (set_next_kernel_env fx s r true).
+Proof.
+  intros * (HI & HT & HQ) Hr. op_start HI HT HQ.
+  unfold set_next_kernel_env, modeenv_write, set_ck; simpl.
+  break; finish.
+  all: destruct fx; simpl in *; try solve [fin]; right; splits; eauto 8.
+Qed.
+
 (* all operations at once, in the shape start_op uses *)
 Lemma op_all : forall gk gb ak ab k b s o,
   Qf gk gb ak ab k b s ->
@@ -240,23 +279,28 @@ Lemma op_all : forall gk gb ak ab k b s o,
   let ak1 := match o with SetK r false => if N.eqb r (kl s) then ak else r :: ak | _ => ak end in
   let ab1 := match o with SetB r false => if N.eqb r (m_base (me s)) then ab else r :: ab | _ => ab end in
   pend_ok (P gk' gb' ak1 ab1 (is_nt (Some o)))
-          (fun s' => Qf gk' gb' (fin_ak o s' ak1) (fin_ab o s' ab1) k b s') s (writes20 fx o s).
+          (fun s' => Qf gk' gb' (fin_ak o s' ak1) (fin_ab o s' ab1) k b s') s (writes20 cf fx o s).
 Proof.
-  intros * HQ Hen. destruct o as [r [|] | r [|] |]; simpl.
+  intros * HQ Hen. destruct o as [r [|] | r [|] |], cf; simpl.
   - apply op_setk_notry; auto.
+  - apply op_setk_notry_env; auto.
   - apply op_setk_try; auto.
+  - apply op_setk_try_env; auto.
+  - apply op_setb_notry; auto.
   - apply op_setb_notry; auto.
   - apply op_setb_try; auto.
+  - apply op_setb_try; auto.
   - apply op_mark; auto.
+  - apply op_mark_env; auto.
 Qed.
 
 (* the firmware never gets stuck, only rewrites kernel_status, and chainloads what the status it leaves says *)
-Lemma firmware_ok : forall s s' r, firmware20 s = (s', r) ->
+Lemma firmware_ok : forall tb s s' r, firmware_c cf tb s = (s', r) ->
   kl s' = kl s /\ tkl s' = tkl s /\ me s' = me s /\ r <> FwStuck /\ (live (ks s') = true -> live (ks s) = true) /\
   (forall i, r = FwImage i -> fwc i s').
 Proof.
-  intros s s' r; unfold firmware20; rewrite grub_table.
-  destruct (ks s); simpl; try destruct (tkl s) eqn:Et; simpl; intros H; inversion H; subst; simpl;
+  intros tb s s' r; unfold firmware_c, firmware20, firmware_ns, ns_status; rewrite grub_table.
+  destruct cf, tb; destruct (ks s); simpl; try destruct (tkl s) eqn:Et; simpl; intros H; inversion H; subst; simpl;
     repeat split; auto; try discriminate; unfold fwc; simpl;
     try (intros; match goal with Hi : FwImage _ = FwImage _ |- _ => inversion Hi; subst end; auto; try discriminate; congruence).
 Qed.
@@ -272,8 +316,8 @@ Proof.
 Qed.
 
 (* what the initramfs mounts: the image grub chainloaded, and a known-good revision or the one under trial *)
-Lemma mount_ok : forall m i k b, MI m -> ph m = PhFw i -> ph (step20 fx g m EInitramfs) = PhRun k b ->
-  k = i /\ (In k (gk m) \/ In k (ak m)) /\ (In b (gb m) \/ In b (ab m)) /\ MI (step20 fx g m EInitramfs).
+Lemma mount_ok : forall m i k b, MI m -> ph m = PhFw i -> ph (step20 cf fx g m EInitramfs) = PhRun k b ->
+  k = i /\ (In k (gk m) \/ In k (ak m)) /\ (In b (gb m) \/ In b (ab m)) /\ MI (step20 cf fx g m EInitramfs).
 Proof.
   intros m i k b HM Hp. unfold MI in HM. rewrite Hp in HM. destruct HM as (_ & HI & HT & (Hks & Hc1 & Hc2)).
   unfold step20. rewrite Hp. unfold initramfs20.
@@ -304,7 +348,7 @@ Proof.
     intros _ t Ht; inversion Ht; subst. rewrite B3. auto.
 Qed.
 
-Theorem MI_step : forall m e, MI m -> MI (step20 fx g m e).
+Theorem MI_step : forall m e, MI m -> MI (step20 cf fx g m e).
 Proof.
   intros m e HM0. assert (HM := HM0). unfold MI in HM.
   destruct e.
@@ -318,7 +362,7 @@ Proof.
     { destruct o as [r [|] | r [|] |]; simpl in *; auto; apply mem_In; auto. }
     pose proof (op_all _ _ _ _ _ _ _ o HQ Hen) as L. simpl in L.
     unfold MI, start_op; simpl. rewrite Eph.
-    destruct (writes20 fx o (st m)) as [| w ws] eqn:Ew.
+    destruct (writes20 cf fx o (st m)) as [| w ws] eqn:Ew.
     + simpl in *. split; [exact L | reflexivity].
     + split; [exact L | discriminate].
   - (* EWrite *)
@@ -336,23 +380,24 @@ Proof.
     { destruct (ph m) as [| i | k b |] eqn:Eph; try tauto.
       destruct HM as [HQ Hm]. destruct (pend m) as [| w ws] eqn:Ep; simpl in HQ.
       - rewrite (Hm eq_refl) in HQ. destruct HQ as (? & ? & ?); auto.
-      - destruct HQ as [[HI [HT | (Hg & Hnt & r & ws' & Hh)]] _]; auto.
+      - destruct HQ as [[HI [HT | (Hg & Hnt & ws' & Hh)]] _]; auto.
         exfalso. unfold is_nt in Hnt. destruct (cur m) as [[? [|] | |]|] eqn:Ec; try discriminate.
-        inversion Hh; subst. unfold in_window in Ew. rewrite Ec, Ep, Hg in Ew. simpl in Ew. discriminate. }
+        unfold in_window in Ew. rewrite Ec, Ep, Hg in Ew.
+        destruct Hh as [[r9 Hh] | (a1 & a2 & a3 & Hh)]; inversion Hh; subst; simpl in Ew; discriminate. }
     destruct (ph m); unfold MI; simpl; tauto.
   - (* EFirmware *)
     unfold step20.
     destruct (ph m) as [| i | k b |] eqn:Eph; try (unfold MI; rewrite Eph; exact HM).
     destruct HM as (_ & HI & HT).
-    destruct (firmware20 (st m)) as [s' r] eqn:Ef.
-    destruct (firmware_ok _ _ _ Ef) as (E1 & E2 & E3 & Hns & E4 & Hfw).
+    destruct (firmware_c cf tb (st m)) as [s' r] eqn:Ef.
+    destruct (firmware_ok _ _ _ _ Ef) as (E1 & E2 & E3 & Hns & E4 & Hfw).
     assert (Ist (gk m) (gb m) (ak m) (ab m) s' /\ Trust s').
     { unfold Ist, Trust in *. rewrite E1, E2, E3. intuition. }
     destruct r; unfold MI; simpl; try tauto; try congruence.
     pose proof (Hfw _ eq_refl). tauto.
   - (* EInitramfs *)
     destruct (ph m) as [| i | k b |] eqn:Eph; try (unfold step20; rewrite Eph; exact HM0).
-    destruct (ph (step20 fx g m EInitramfs)) as [| i' | k b |] eqn:Er.
+    destruct (ph (step20 cf fx g m EInitramfs)) as [| i' | k b |] eqn:Er.
     + (* reboot requested *)
       revert Er. unfold step20. rewrite Eph. unfold initramfs20.
       destruct (initramfs_base (me (st m))) as [m' b'] eqn:Eb.
@@ -379,7 +424,7 @@ Proof.
   intros; unfold MI, init20, Ist, Trust; simpl. repeat split; auto; intros; discriminate.
 Qed.
 
-Theorem MI_run : forall evs m, MI m -> MI (run20 fx g m evs).
+Theorem MI_run : forall evs m, MI m -> MI (run20 cf fx g m evs).
 Proof.
   unfold run20; induction evs as [| e r IH]; simpl; intros m H; auto. apply IH, MI_step, H.
 Qed.
@@ -388,25 +433,25 @@ End UC20.
 
 (* ------------------------------------------------------------------------------------------------ UC20 consequences *)
 
-Definition reach20 (fx g : bool) (k0 b0 : rev) (m : mach) : Prop := exists evs, m = run20 fx g (init20 k0 b0) evs.
+Definition reach20 (cf : conf) (fx g : bool) (k0 b0 : rev) (m : mach) : Prop := exists evs, m = run20 cf fx g (init20 k0 b0) evs.
 
-Lemma reach_MI : forall fx g k0 b0 m, fx || g = true -> reach20 fx g k0 b0 m -> MI g m.
+Lemma reach_MI : forall cf fx g k0 b0 m, fx || g = true -> reach20 cf fx g k0 b0 m -> MI g m.
 Proof. intros * Hg [evs ->]. apply MI_run; auto. apply MI_init. Qed.
 
 (* whatever the initramfs mounts, at the moment it mounts it, is the image grub chainloaded and is known-good or THE
    revision under trial *)
-Lemma mounts_good_or_try : forall fx g k0 b0 m i k b, fx || g = true -> reach20 fx g k0 b0 m ->
-  ph m = PhFw i -> ph (step20 fx g m EInitramfs) = PhRun k b ->
+Lemma mounts_good_or_try : forall cf fx g k0 b0 m i k b, fx || g = true -> reach20 cf fx g k0 b0 m ->
+  ph m = PhFw i -> ph (step20 cf fx g m EInitramfs) = PhRun k b ->
   k = i /\ (In k (gk m) \/ In k (ak m)) /\ (In b (gb m) \/ In b (ab m)).
 Proof.
-  intros * Hg Hr Hp Hs. pose proof (reach_MI _ _ _ _ _ Hg Hr) as HM.
-  destruct (mount_ok _ _ _ _ _ _ HM Hp Hs) as (? & ? & ? & _). auto.
+  intros * Hg Hr Hp Hs. pose proof (reach_MI _ _ _ _ _ _ Hg Hr) as HM.
+  destruct (mount_ok _ _ _ _ _ _ _ HM Hp Hs) as (? & ? & ? & _). auto.
 Qed.
 
-Lemma fallback_known_good : forall fx g k0 b0 m, fx || g = true -> reach20 fx g k0 b0 m ->
+Lemma fallback_known_good : forall cf fx g k0 b0 m, fx || g = true -> reach20 cf fx g k0 b0 m ->
   In (kl (st m)) (gk m) /\ In (m_base (me (st m))) (gb m).
 Proof.
-  intros * Hg Hr. pose proof (reach_MI _ _ _ _ _ Hg Hr) as HM. unfold MI in HM.
+  intros * Hg Hr. pose proof (reach_MI _ _ _ _ _ _ Hg Hr) as HM. unfold MI in HM.
   destruct (ph m); try tauto.
   - destruct HM as (_ & (? & ? & _) & _); auto.
   - destruct HM as (_ & (? & ? & _) & _); auto.
@@ -416,88 +461,89 @@ Proof.
 Qed.
 
 (* the known-good sets grow only when snapd starts marking the boot successful, by what is running *)
-Lemma known_good_only_by_mark : forall fx g m e,
-  (gk (step20 fx g m e) = gk m /\ gb (step20 fx g m e) = gb m) \/
+Lemma known_good_only_by_mark : forall cf fx g m e,
+  (gk (step20 cf fx g m e) = gk m /\ gb (step20 cf fx g m e) = gb m) \/
   (exists k b, ph m = PhRun k b /\ e = EOp Mark /\
-               gk (step20 fx g m e) = k :: gk m /\ gb (step20 fx g m e) = b :: gb m).
+               gk (step20 cf fx g m e) = k :: gk m /\ gb (step20 cf fx g m e) = b :: gb m).
 Proof.
-  intros fx g m e. destruct e; unfold step20; simpl.
+  intros cf fx g m e. destruct e; unfold step20; simpl.
   - destruct (ph m) as [| i | k b |] eqn:Ep; auto. destruct (pend m); auto. destruct (op_enabled m o); auto.
     destruct o as [? ? | ? ? |]; simpl; auto. right; exists k, b; auto.
   - destruct (ph m); auto. destruct (pend m); auto.
   - destruct (g && in_window m); destruct (ph m); auto.
-  - destruct (ph m); auto. destruct (firmware20 (st m)); auto.
+  - destruct (ph m); auto. destruct (firmware_c cf tb (st m)); auto.
   - destruct (ph m); auto. destruct (initramfs20 (st m)) as [[? ?] ?]; auto.
 Qed.
 
-Lemma never_dead : forall fx g k0 b0 m, fx || g = true -> reach20 fx g k0 b0 m -> ph m <> PhDead.
+Lemma never_dead : forall cf fx g k0 b0 m, fx || g = true -> reach20 cf fx g k0 b0 m -> ph m <> PhDead.
 Proof.
-  intros * Hg Hr Hp. pose proof (reach_MI _ _ _ _ _ Hg Hr) as HM. unfold MI in HM. rewrite Hp in HM. exact HM.
+  intros * Hg Hr Hp. pose proof (reach_MI _ _ _ _ _ _ Hg Hr) as HM. unfold MI in HM. rewrite Hp in HM. exact HM.
 Qed.
 
-Lemma reach_Trust : forall fx g k0 b0 m, fx || g = true -> reach20 fx g k0 b0 m -> g && in_window m = false ->
+Lemma reach_Trust : forall cf fx g k0 b0 m, fx || g = true -> reach20 cf fx g k0 b0 m -> g && in_window m = false ->
   In (kl (st m)) (m_ck (me (st m))).
 Proof.
-  intros * Hg Hr Hw. pose proof (reach_MI _ _ _ _ _ Hg Hr) as HM.
-  pose proof (MI_step fx g Hg m EReset HM) as H2. unfold step20 in H2. rewrite Hw in H2.
+  intros * Hg Hr Hw. pose proof (reach_MI _ _ _ _ _ _ Hg Hr) as HM.
+  pose proof (MI_step cf fx g Hg m EReset HM) as H2. unfold step20 in H2. rewrite Hw in H2.
   destruct (ph m) eqn:Ep; unfold MI in H2; simpl in H2; tauto.
 Qed.
 
 (* a trial boot that fails or is interrupted (kernel_status still trying at the reset) is followed by a boot of the
    kernel kernel.efi points to, which is known-good *)
-Lemma failed_kernel_trial_returns : forall fx g k0 b0 m, fx || g = true -> reach20 fx g k0 b0 m ->
+Lemma failed_kernel_trial_returns : forall cf fx g k0 b0 m, fx || g = true -> reach20 cf fx g k0 b0 m ->
   g && in_window m = false -> ks (st m) = STrying ->
-  exists b, ph (run20 fx g m [EReset; EFirmware; EInitramfs]) = PhRun (kl (st m)) b /\ In (kl (st m)) (gk m).
+  forall tb, exists b, ph (run20 cf fx g m [EReset; EFirmware tb; EInitramfs]) = PhRun (kl (st m)) b /\ In (kl (st m)) (gk m).
 Proof.
-  intros * Hg Hr Hw Hk.
-  pose proof (reach_Trust _ _ _ _ _ Hg Hr Hw) as HT. apply mem_In in HT.
-  destruct (fallback_known_good _ _ _ _ _ Hg Hr) as [Hgk _].
-  assert (Hnd : ph m <> PhDead) by (eapply never_dead; eauto).
-  assert (E1 : step20 fx g m EReset = with_st m (st m) PhOff).
+  intros * Hg Hr Hw Hk tb.
+  pose proof (reach_Trust _ _ _ _ _ _ Hg Hr Hw) as HT. apply mem_In in HT.
+  destruct (fallback_known_good _ _ _ _ _ _ Hg Hr) as [Hgk _].
+  assert (E1 : step20 cf fx g m EReset = with_st m (st m) PhOff).
   { unfold step20. rewrite Hw. destruct (ph m); reflexivity. }
   unfold run20. cbn [fold_left]. rewrite E1.
-  unfold step20; simpl. unfold firmware20. rewrite grub_table, Hk; simpl.
-  unfold initramfs20; simpl.
-  destruct (initramfs_base (me (st m))) as [m' b] eqn:Eb.
-  destruct (initramfs_base_ok _ _ _ Eb) as (_ & _ & B3 & _).
-  unfold initramfs_kernel; simpl. rewrite B3, HT. simpl. eauto.
+  unfold step20; simpl. unfold firmware_c, firmware20, firmware_ns, ns_status.
+  rewrite grub_table, Hk; simpl. rewrite Bool.andb_false_r.
+  destruct cf; simpl; unfold initramfs20; simpl.
+  all: destruct (initramfs_base (me (st m))) as [m' b] eqn:Eb;
+    destruct (initramfs_base_ok _ _ _ Eb) as (_ & _ & B3 & _);
+    unfold initramfs_kernel; simpl; rewrite B3, HT; simpl; eauto.
 Qed.
 
 (* bounded fallback: from every reachable state a reset is followed by a mount within TWO firmware rounds (a try
    kernel that is missing or not trusted costs one extra round; there is no try loop) *)
-Lemma boot_terminates : forall fx g k0 b0 m, fx || g = true -> reach20 fx g k0 b0 m -> g && in_window m = false ->
-  exists k b, ph (run20 fx g m [EReset; EFirmware; EInitramfs; EFirmware; EInitramfs]) = PhRun k b.
+Lemma boot_terminates : forall cf fx g k0 b0 m, fx || g = true -> reach20 cf fx g k0 b0 m -> g && in_window m = false ->
+  forall tb, exists k b,
+    ph (run20 cf fx g m [EReset; EFirmware tb; EInitramfs; EFirmware false; EInitramfs]) = PhRun k b.
 Proof.
-  intros * Hg Hr Hw.
-  pose proof (reach_Trust _ _ _ _ _ Hg Hr Hw) as HT. apply mem_In in HT.
-  assert (E1 : step20 fx g m EReset = with_st m (st m) PhOff).
+  intros * Hg Hr Hw tb0.
+  pose proof (reach_Trust _ _ _ _ _ _ Hg Hr Hw) as HT. apply mem_In in HT.
+  assert (E1 : step20 cf fx g m EReset = with_st m (st m) PhOff).
   { unfold step20. rewrite Hw. destruct (ph m); reflexivity. }
   unfold run20. cbn [fold_left]. rewrite E1. unfold with_st.
   destruct (st m) as [ks0 kl0 tkl0 [mb mt mbs mck]]. simpl in HT.
-  destruct ks0, tkl0 as [t|]; destruct mbs, mt as [tb|]; simpl; unfold initramfs_kernel; simpl; rewrite ?HT; simpl;
+  destruct cf, tb0, ks0, tkl0 as [t|]; destruct mbs, mt as [tb|]; simpl; unfold initramfs_kernel; simpl; rewrite ?HT; simpl;
     try (destruct (mem t mck) eqn:Et; simpl); unfold initramfs_kernel; simpl; rewrite ?HT; simpl; eauto.
 Qed.
 
 (* same for the base: base_status still trying when the initramfs runs means the trial failed; the base is mounted *)
-Lemma failed_base_trial_returns : forall fx g k0 b0 m, fx || g = true -> reach20 fx g k0 b0 m ->
+Lemma failed_base_trial_returns : forall cf fx g k0 b0 m, fx || g = true -> reach20 cf fx g k0 b0 m ->
   m_bst (me (st m)) = STrying ->
   snd (initramfs_base (me (st m))) = m_base (me (st m)) /\ m_bst (fst (initramfs_base (me (st m)))) = SDef /\
   In (m_base (me (st m))) (gb m).
 Proof.
-  intros * Hg Hr Hb. destruct (fallback_known_good _ _ _ _ _ Hg Hr) as [_ H].
+  intros * Hg Hr Hb. destruct (fallback_known_good _ _ _ _ _ _ Hg Hr) as [_ H].
   unfold initramfs_base; rewrite Hb; simpl; auto.
 Qed.
 
 (* the full statement is false of the code as it is: a power loss right after the modeenv write of a kernel-switching
    undo leaves kernel.efi on a kernel that current_kernels no longer lists; the initramfs stops *)
 Definition dead_end_witness : list ev20 :=
-  [EFirmware; EInitramfs;
-   EOp (SetK 2 false); EWrite; EWrite; EWrite; EReset; EFirmware; EInitramfs;      (* try kernel 2, reboot into it *)
+  [EFirmware false; EInitramfs;
+   EOp (SetK 2 false); EWrite; EWrite; EWrite; EReset; EFirmware true; EInitramfs;       (* try kernel 2, reboot into it *)
    EOp Mark; EWrite; EWrite; EWrite; EWrite;                                        (* kernel 2 is now known-good *)
    EOp (SetK 1 true); EWrite; EReset;                                               (* undo to 1, power loss after the modeenv *)
-   EFirmware; EInitramfs].
+   EFirmware false; EInitramfs].
 
-Lemma dead_end_reached : ph (run20 false false (init20 1 1) dead_end_witness) = PhDead.
+Lemma dead_end_reached : ph (run20 Grub false false (init20 1 1) dead_end_witness) = PhDead.
 Proof. vm_compute. reflexivity. Qed.
 
 (* ------------------------------------------------------------------------------------------------ UC16/18 *)
@@ -530,7 +576,29 @@ Ltac fin16 :=
   sat16; repeat split; auto using in_eq, in_cons; intros; try discriminate; sat16;
   try solve [intuition (subst; auto using in_eq, in_cons; congruence)].
 
-Theorem I16_step : forall m e, I16 m -> I16 (step16 m e).
+(* The contract of the gadget's boot script (not in this repository), as the comment above boot.MarkBootSuccessful
+   describes it: it only ever rewrites snap_mode; try -> trying and boots snap_try_* where set; trying -> "" and boots
+   snap_*; otherwise boots snap_* (an invalid snap_mode may be left alone or cleared). *)
+Definition fw16_ok (fw : st16 -> st16 * rev * rev) : Prop := forall s,
+  sk (fst (fst (fw s))) = sk s /\ stk (fst (fst (fw s))) = stk s /\
+  sc (fst (fst (fw s))) = sc s /\ stc (fst (fst (fw s))) = stc s /\
+  match mode s with
+  | STry => mode (fst (fst (fw s))) = STrying /\
+            snd (fst (fw s)) = match stk s with Some t => t | None => sk s end /\
+            snd (fw s) = match stc s with Some t => t | None => sc s end
+  | STrying | SDef => mode (fst (fst (fw s))) = SDef /\ snd (fst (fw s)) = sk s /\ snd (fw s) = sc s
+  | SBad => (mode (fst (fst (fw s))) = SBad \/ mode (fst (fst (fw s))) = SDef) /\
+            snd (fst (fw s)) = sk s /\ snd (fw s) = sc s
+  end.
+
+Lemma firmware16_ok : fw16_ok firmware16.
+Proof. intros s; unfold firmware16; destruct (mode s) eqn:E; simpl; rewrite ?E; auto 10. Qed.
+
+Section UC16.
+Variable fw : st16 -> st16 * rev * rev.
+Hypothesis Hfw : fw16_ok fw.
+
+Theorem I16_step : forall m e, I16 m -> I16 (step16 fw m e).
 Proof.
   intros [[md k0 tk0 c0 tc0] p gk0 gc0 ak0 ac0] e (H1 & H2 & H3 & H4 & H5); simpl in *.
   destruct e as [o | |]; unfold step16; simpl.
@@ -545,41 +613,64 @@ Proof.
     + unfold I16, mark16; simpl. destruct md; simpl; destruct tk0, tc0; simpl; fin16.
   - unfold I16; simpl; auto.
   - destruct p as [| k c]; [| unfold I16; simpl; auto].
-    unfold I16, firmware16; simpl. destruct md; simpl; destruct tk0, tc0; simpl; fin16.
+    pose proof (Hfw {| mode := md; sk := k0; stk := tk0; sc := c0; stc := tc0 |}) as F.
+    destruct (fw {| mode := md; sk := k0; stk := tk0; sc := c0; stc := tc0 |}) as [[[md' k1 tk1 c1 tc1] kk] cc].
+    simpl in F. destruct F as (F1 & F2 & F3 & F4 & F5). subst k1 tk1 c1 tc1.
+    unfold I16; simpl. destruct md; simpl in F5; destruct tk0, tc0; fin16;
+      try (destruct F5 as [F5 | F5]; rewrite F5 in *; discriminate).
 Qed.
+
+Theorem I16_run : forall evs m, I16 m -> I16 (run16 fw m evs).
+Proof. unfold run16; induction evs as [| e r IH]; simpl; intros; auto. apply IH, I16_step; auto. Qed.
+
+End UC16.
 
 Lemma I16_init : forall k c, I16 (init16 k c).
 Proof. intros; unfold I16, init16; simpl; repeat split; auto; intros; discriminate. Qed.
 
-Theorem I16_run : forall evs m, I16 m -> I16 (run16 m evs).
-Proof. unfold run16; induction evs as [| e r IH]; simpl; intros; auto. apply IH, I16_step; auto. Qed.
-
 (* what the boot script boots, at the moment it boots it, is known-good or THE revision under trial *)
-Lemma boots16_good_or_try : forall k0 c0 evs k c,
-  let m := run16 (init16 k0 c0) evs in
-  ph16 m = P16Off -> ph16 (step16 m E16Firmware) = P16Run k c ->
-  (In k (gk16 m) \/ In k (ak16 m)) /\ (In c (gc16 m) \/ In c (ac16 m)) /\
-  In (sk (s16 m)) (gk16 m) /\ In (sc (s16 m)) (gc16 m).
+Lemma boots16_good_or_try : forall fw k0 c0 evs k c, fw16_ok fw ->
+  let m := run16 fw (init16 k0 c0) evs in
+  ph16 m = P16Off -> ph16 (step16 fw m E16Firmware) = P16Run k c ->
+  (In k (gk16 m) \/ In k (ak16 m)) /\ (In c (gc16 m) \/ In c (ac16 m)).
 Proof.
-  intros * Hp. pose proof (I16_run evs _ (I16_init k0 c0)) as H. fold m in H. unfold I16 in H.
+  intros * Hfw m Hp. pose proof (I16_run fw Hfw evs _ (I16_init k0 c0)) as H. fold m in H. unfold I16 in H.
   destruct H as (H1 & H2 & H3 & H4 & _).
-  unfold step16. rewrite Hp. unfold firmware16.
-  destruct (mode (s16 m)); simpl; intros E; inversion E; subst; repeat split; auto;
+  unfold step16. rewrite Hp. pose proof (Hfw (s16 m)) as F.
+  destruct (fw (s16 m)) as [[s' kk] cc]. simpl in F. destruct F as (_ & _ & _ & _ & F5).
+  simpl. intros E; inversion E; subst kk cc.
+  destruct (mode (s16 m)); destruct F5 as (_ & -> & ->); split; auto;
     try (destruct (stk (s16 m)) eqn:Ek; auto); try (destruct (stc (s16 m)) eqn:Ec; auto).
 Qed.
 
-Lemma fallback16_known_good : forall k0 c0 evs,
-  let m := run16 (init16 k0 c0) evs in In (sk (s16 m)) (gk16 m) /\ In (sc (s16 m)) (gc16 m).
-Proof. intros. pose proof (I16_run evs _ (I16_init k0 c0)) as H. fold m in H. unfold I16 in H. tauto. Qed.
+(* snap_kernel / snap_core (the fall-back, never empty) always name known-good revisions: the good one is never
+   removed from the boot environment while it is the fallback *)
+Lemma fallback16_known_good : forall fw k0 c0 evs, fw16_ok fw ->
+  let m := run16 fw (init16 k0 c0) evs in In (sk (s16 m)) (gk16 m) /\ In (sc (s16 m)) (gc16 m).
+Proof. intros * Hfw m. pose proof (I16_run fw Hfw evs _ (I16_init k0 c0)) as H. fold m in H. unfold I16 in H. tauto. Qed.
 
 (* a failed trial (snap_mode still trying at the next boot) boots snap_kernel / snap_core, which are known-good *)
-Lemma failed_trial16_returns : forall k0 c0 evs,
-  let m := run16 (init16 k0 c0) evs in mode (s16 m) = STrying ->
-  ph16 (run16 m [E16Reset; E16Firmware]) = P16Run (sk (s16 m)) (sc (s16 m)) /\
+Lemma failed_trial16_returns : forall fw k0 c0 evs, fw16_ok fw ->
+  let m := run16 fw (init16 k0 c0) evs in mode (s16 m) = STrying ->
+  ph16 (run16 fw m [E16Reset; E16Firmware]) = P16Run (sk (s16 m)) (sc (s16 m)) /\
   In (sk (s16 m)) (gk16 m) /\ In (sc (s16 m)) (gc16 m).
 Proof.
-  intros * Hm. split; [| apply fallback16_known_good].
-  unfold run16; simpl. unfold step16; simpl. unfold firmware16. rewrite Hm. reflexivity.
+  intros * Hfw m Hm. split; [| apply fallback16_known_good; auto].
+  unfold run16, step16; simpl.
+  pose proof (Hfw (s16 m)) as F. destruct (fw (s16 m)) as [[s' kk] cc]. simpl in F.
+  rewrite Hm in F. destruct F as (_ & _ & _ & _ & _ & -> & ->). reflexivity.
+Qed.
+
+(* known-good only by mark, UC16 *)
+Lemma known_good16_only_by_mark : forall fw m e,
+  (gk16 (step16 fw m e) = gk16 m /\ gc16 (step16 fw m e) = gc16 m) \/
+  (exists k c, ph16 m = P16Run k c /\ e = E16Op Mark16 /\
+               gk16 (step16 fw m e) = k :: gk16 m /\ gc16 (step16 fw m e) = c :: gc16 m).
+Proof.
+  intros fw m e. destruct e as [o | |]; unfold step16; simpl; auto.
+  - destruct (ph16 m) as [| k c] eqn:Ep; auto. destruct (op16_enabled m o); auto.
+    destruct o as [? ? ? |]; simpl; auto. right; exists k, c; auto.
+  - destruct (ph16 m); auto. destruct (fw (s16 m)) as [[? ?] ?]; auto.
 Qed.
 
 (* not scriptable: the status only advances try -> trying, and only when the firmware used the try configuration *)
@@ -591,3 +682,13 @@ Lemma not_scriptable_spec : forall conf cl,
     | _ => Some SDef
     end.
 Proof. destruct conf, cl; reflexivity. Qed.
+
+(* the known-good revision is never removed from the boot environment while it is the fall-back: kernel.efi /
+   snap_kernel names a known-good kernel that current_kernels still lists, and the modeenv base is known-good *)
+Lemma fallback_never_removed : forall cf fx g k0 b0 m, fx || g = true -> reach20 cf fx g k0 b0 m ->
+  g && in_window m = false ->
+  In (kl (st m)) (gk m) /\ In (kl (st m)) (m_ck (me (st m))) /\ In (m_base (me (st m))) (gb m).
+Proof.
+  intros * Hg Hr Hw. destruct (fallback_known_good _ _ _ _ _ _ Hg Hr). split; auto. split; auto.
+  eapply reach_Trust; eauto.
+Qed.
